@@ -29,7 +29,7 @@ func init() {
 }
 
 func c05Pool(tier string) []string {
-	p := []string{"a.x", "b.x", "z.y", "-a.x", ".h.x", "d/a.x", "d/.h.x", ".hd/a.x", "d/.hd/a.x", "d/e/a.x", "dx/a.x"}
+	p := []string{"a.x", "b.x", "z.y", "-a.x", ".h.x", "d/a.x", "d/.h.x", ".hd/a.x", "d/.hd/a.x", "d/e/a.x", "dx/a.x", "@zl.x"}
 	if tier == "thorough" {
 		p = append(p, "~t.x", "d/e/.h.x", "e/a.x")
 	}
@@ -75,7 +75,14 @@ func c05Reference(root, pattern string) (files []string) {
 			return nil
 		}
 		rel, _ := filepath.Rel(root, p)
-		if d.Type().IsRegular() && !strings.HasPrefix(rel, ".") {
+		regular := d.Type().IsRegular()
+		if d.Type()&fs.ModeSymlink != 0 {
+			// a link to a regular file is a file of the tree like any other
+			if st, err := os.Stat(p); err == nil && st.Mode().IsRegular() {
+				regular = true
+			}
+		}
+		if regular && !strings.HasPrefix(rel, ".") {
 			if ok, _ := doublestar.Match(pattern, rel); ok {
 				files = append(files, rel)
 			}
@@ -124,6 +131,15 @@ func c05Tree(sb *proj.Sandbox, paths []string) {
 	sb.ResetProject()
 	os.WriteFile(filepath.Join(sb.Dir, "spokfile"), []byte("# placeholder\n"), 0o644)
 	for _, p := range paths {
+		if p == "@zl.x" {
+			// a symbolic link to a file of the tree; never dangling (hashing a dangling link is an error, rightly: C18)
+			for _, q := range paths {
+				if q == "a.x" {
+					os.Symlink("a.x", filepath.Join(sb.Dir, "zl.x"))
+				}
+			}
+			continue
+		}
 		full := filepath.Join(sb.Dir, p)
 		os.MkdirAll(filepath.Dir(full), 0o755)
 		os.WriteFile(full, []byte(p), 0o644)
